@@ -40,15 +40,18 @@ type input struct {
 	Fk      []byte         `json:"fk,omitempty"`
 	File    string         `json:"file,omitempty"`
 	Big     bool           `json:"big,omitempty"`
-	Sty     *encx.MStyle   `json:"sty,omitempty"`      // spec: how the manifest line is written (nil = Go's way)
+	Sty     *encx.MStyle   `json:"sty,omitempty"`     // spec: how the manifest line is written (nil = Go's way)
 	Sender2 bool           `json:"sender2,omitempty"` // enc: the sender's vault also holds DecryptionKeyName, under another key
 	// Nested: the wrap / unwrap callbacks themselves run complete enc/v1 streams before answering (an
 	// envelope key store whose records are enc/v1 documents), on one P with the GC off
 	Nested bool `json:"nested,omitempty"`
 	// HeaderLen: enc - the key name that goes into the manifest (KeyName, or DecryptionKeyName when
 	// LongDec) is padded so that the three header lines are exactly this long
-	HeaderLen int  `json:"header_len,omitempty"`
-	LongDec   bool `json:"long_dec,omitempty"`
+	// Iface: the source given to Decrypt also implements optional interfaces (Seek that fails or lies,
+	// ReadAt / WriteTo / ReadByte / Len ... returning garbage): the package may rely on Read only
+	Iface     string `json:"iface,omitempty"`
+	HeaderLen int    `json:"header_len,omitempty"`
+	LongDec   bool   `json:"long_dec,omitempty"`
 }
 
 // recipient builds the recipient's vault for a document with manifest key name mk: the name
@@ -111,6 +114,15 @@ func genScript(r *hx.Rand, total, style, maxItems int) encx.SItems {
 	return encx.GenItems(r, total, style, 1+r.Intn(total+1), maxItems)
 }
 
+// pickIface: a quarter of the Decrypt sources also have Seek / ReadAt / WriteTo ... methods that
+// do not work.
+func pickIface(r *hx.Rand) string {
+	if r.Chance(1, 4) {
+		return encx.IfaceNames[r.Intn(len(encx.IfaceNames))]
+	}
+	return ""
+}
+
 func cphName(o *encx.Opts) string {
 	if o == nil || o.Cipher == nil {
 		return "default"
@@ -156,6 +168,10 @@ func run(ctx *core.Ctx, in input) error {
 		ctx.Sink.Count("callbacks=nested_streams")
 	}
 	orig := in // what is recorded for replay (before the key name is padded)
+	if in.Iface != "" {
+		so.Iface = in.Iface
+		ctx.Sink.Count("dec/source_optional_interfaces=" + in.Iface)
+	}
 	if in.Kind == "enc" && in.HeaderLen > 0 {
 		o := *in.Opts
 		if in.LongDec {
@@ -200,6 +216,9 @@ func run(ctx *core.Ctx, in input) error {
 		}
 		if nestedBad {
 			c.Direct, c.Note = 2, "a stream run inside the wrap callback returned wrong data"
+		}
+		if res.Hung {
+			c.Direct, c.Note = 3, "HANG: the Encrypt stream neither delivered data nor ended within the read deadline"
 		}
 		ctx.Sink.Count("kind=enc")
 		ctx.Sink.Count("enc/len=" + encx.LenClass(len(p)))
@@ -329,6 +348,9 @@ func addDec(ctx *core.Ctx, in input, kind, docsrc string, m encx.Manifest, tbl e
 	}
 	if dres.NestedBad {
 		c.Direct, c.Note = 2, "a stream run inside the unwrap callback returned wrong data"
+	}
+	if dres.Hung {
+		c.Direct, c.Note = 3, "HANG: the Decrypt stream neither delivered data nor ended within the read deadline"
 	}
 	ctx.Sink.Count("kind=" + kind)
 	ctx.Sink.Count("dec/len=" + encx.LenClass(plen))
@@ -515,8 +537,13 @@ func gen(ctx *core.Ctx) {
 						must(input{Kind: "enc", Opts: &o, P: encx.GenPlain(r, n),
 							Script: encx.GenItems(r, n, styles[r.Intn(len(styles))], 1+r.Intn(n+1), 48),
 							Style2: styles[r.Intn(len(styles))], Dec: mode, OptKn: ov, WfkLen: wfkLen(r, alg), Seed: r.U64(),
-							Sender2: o.DecKeyName != "" && r.Bool()})
-						must(specInput(r, o, pickLen(r, k+3), ov, decMode(r), false))
+							Sender2: o.DecKeyName != "" && r.Bool(), Iface: pickIface(r)})
+						sp := specInput(r, o, pickLen(r, k+3), ov, decMode(r), false)
+						sp.Iface = pickIface(r)
+						if sp.Iface != "" && r.Bool() {
+							sp.Script = encx.SItems{{K: "de", N: 1 << 20}}
+						}
+						must(sp)
 					}
 				}
 			}
